@@ -128,6 +128,7 @@ type fsCacheCtr struct {
 	Prefs    interface{} `json:"prefs,omitempty"`
 	PresCPU  bool   `json:"preserve_cpu"`
 	PresMem  bool   `json:"preserve_mem"`
+	HideHTAnn string `json:"hide_ht_ann"`
 }
 
 type fsZone struct {
@@ -408,6 +409,7 @@ func (inst *fsInstance) snapshot(out *fsOut) {
 			cc.MemLim = q.Value()
 		}
 		cc.PresCPU, cc.PresMem = c.PreserveCpuResources(), c.PreserveMemoryResources()
+		cc.HideHTAnn, _ = c.GetEffectiveAnnotation("hide-hyperthreads.resource-policy.nri.io")
 		if inst.policy != "balloons" && (c.GetState() == cache.ContainerStateCreated || c.GetState() == cache.ContainerStateRunning) {
 			func() {
 				defer func() { recover() }()
